@@ -19,9 +19,31 @@ for m in sorted(glob.glob(os.path.join(root, 'seeded', '*', 'meta.json'))):
     m = json.load(open(m))
     rows.append('| %s | %s | %s | %s |' % (m['id'], short(m['change'], 200), short(m['needs_to_manifest'], 200), short(m['outcome'], 260)))
 seeded = '| id | change (compiles, existing tests pass) | needs to manifest | outcome against my checks |\n|---|---|---|---|\n' + '\n'.join(rows)
+# tally per seeding round (ids -1,-2 = round 1; -3,-4 = round 2; ...), classified by the recorded outcome
+def klass(o):
+    if o.startswith('NOT caught'): return 'not caught'
+    if o.startswith('caught'): return 'caught by the check as first built'
+    if re.match(r'missed by (the first version of )?C\d\d.*?; caught by C\d\d', o): return 'caught by a sibling check'
+    if 'caught after' in o or 'caught since' in o: return 'caught after an extension'
+    return 'other'
+tally = {}
+for m in sorted(glob.glob(os.path.join(root, 'seeded', '*', 'meta.json'))):
+    m = json.load(open(m))
+    rnd = (int(m['id'].split('-')[1]) + 1) // 2
+    tally.setdefault(rnd, {}).setdefault(klass(m['outcome']), []).append(m['id'])
+cols = ['caught by the check as first built', 'caught by a sibling check', 'caught after an extension', 'not caught', 'other']
+trows = []
+tot = {c: 0 for c in cols}
+for rnd in sorted(tally):
+    t = tally[rnd]
+    n = sum(len(v) for v in t.values())
+    for c in cols: tot[c] += len(t.get(c, []))
+    trows.append('| %d | %d | %s |' % (rnd, n, ' | '.join(str(len(t.get(c, []))) + ((' (' + ', '.join(t[c]) + ')') if c in ('not caught', 'other', 'caught by a sibling check') and t.get(c) else '') for c in cols)))
+trows.append('| all | %d | %s |' % (sum(tot.values()), ' | '.join(str(tot[c]) for c in cols)))
+tallytab = '| round | changes | ' + ' | '.join(cols) + ' |\n|---|---|' + '---|' * len(cols) + '\n' + '\n'.join(trows)
 p = os.path.join(root, 'DESIGN.md')
 s = open(p).read()
-for name, body in (('FINDINGS', findings), ('SEEDED', seeded)):
+for name, body in (('FINDINGS', findings), ('SEEDED', seeded), ('TALLY', tallytab)):
     s = re.sub(r'(<!-- BEGIN %s -->\n).*?(<!-- END %s -->)' % (name, name), lambda mo: mo.group(1) + body + '\n' + mo.group(2), s, flags=re.S)
 open(p, 'w').write(s)
 print('tables regenerated:', len(seen), 'findings,', len(rows), 'seeded')
